@@ -1,6 +1,7 @@
 import LanceModel.C25.ReadLemmas
 import LanceModel.C25.MapRangeLemmas
 import LanceModel.C25.SchedLemmas
+import LanceModel.C25.RepIndexLemmas
 /-!
 # C25 — property theorems
 
@@ -518,11 +519,12 @@ theorem map_range_select (pre : List (Ent α)) (rows : List (List (Ent α))) (hp
   mapRange_select pre rows hp hr s e hse he act ha1 ha2 ha3
 
 /-- `schedule_accounts`: for every stored repetition index (and for the default index of a page without
-    repetition) and every list of in-page ranges within the page's rows, `schedule_instructions` does not panic
+    repetition) and every list of non-empty in-page ranges within the page's rows (the page scheduler never passes
+    an empty one), `schedule_instructions` does not panic
     and the instructions take exactly `Σ (end - start)` rows — the `num_rows` the page decoder announces, on which
     the field decoder's `drain` relies -/
 theorem schedule_accounts (ri : List (Nat × Nat)) (hne : ri ≠ []) (rs : List Rg)
-    (hr : ∀ r ∈ rs, r.s ≤ r.e ∧ r.e ≤ startsSum (decodeRepIndex ri false 0)) :
+    (hr : ∀ r ∈ rs, r.s < r.e ∧ r.e ≤ startsSum (decodeRepIndex ri false 0)) :
     ∃ is, scheduleInstructions (decodeRepIndex ri false 0) rs = some is ∧ takeSum is = numRows rs := by
   apply scheduleInstructions_takes _ (decodeRepIndex_offs ri false 0) _ rs hr
   cases ri with
@@ -530,7 +532,7 @@ theorem schedule_accounts (ri : List (Nat × Nat)) (hne : ri ≠ []) (rs : List 
   | cons p t => obtain ⟨a, b⟩ := p; simp [decodeRepIndex]
 
 theorem schedule_accounts_norep (ns : List Nat) (hne : ns ≠ []) (rs : List Rg)
-    (hr : ∀ r ∈ rs, r.s ≤ r.e ∧ r.e ≤ startsSum (defaultRepIndex ns 0)) :
+    (hr : ∀ r ∈ rs, r.s < r.e ∧ r.e ≤ startsSum (defaultRepIndex ns 0)) :
     ∃ is, scheduleInstructions (defaultRepIndex ns 0) rs = some is ∧ takeSum is = numRows rs := by
   apply scheduleInstructions_takes _ (defaultRepIndex_offs ns 0) _ rs hr
   cases ns with
@@ -538,6 +540,19 @@ theorem schedule_accounts_norep (ns : List Nat) (hne : ns ≠ []) (rs : List Rg)
   | cons p t => simp [defaultRepIndex]
 
 example : startsSum (decodeRepIndex [(1, 2), (3, 0)] false 0) = 4 := by rfl
+
+/-- `rep_index_describes_chunks`: for every cut of a page's levels into non-empty chunks (the page begins with a
+    row), the repetition index the writer stores (`compress_levels`), read back by
+    `MiniBlockRepIndex::decode_from_bytes`, tells for every chunk exactly: how many rows start before it, how many
+    start in it, whether it begins in the middle of a row (preamble) and whether its last row continues in the
+    next chunk (trailer) -/
+theorem rep_index_describes_chunks (chunks : List (List (Ent α))) (hne : ∀ x ∈ chunks, x ≠ [])
+    (hfirst : (chunks.head?.map headStarts).getD true = true) :
+    decodeRepIndex (buildRepIndex chunks) false 0 = blocksSpec chunks 0 := by
+  rw [buildRepIndex_spec chunks hne]
+  have := decode_specIndex chunks hne 0
+  rw [hfirst] at this
+  exact this
 
 /-- the chunk `.. 7 | [1, _] [] [2, 3]` (a one-level preamble, then three rows; `_` and `[]` are invisible levels) -/
 def exPre : List (Ent Nat) := [⟨false, true, 7⟩]
